@@ -10,8 +10,8 @@ import numpy as np
 from vlib import core, dom, rescorr
 
 ID = "C09"
-GEN = []
-PROPS = ["C09_flowprops.v"]
+GEN = ["flowprops"]
+PROPS = ["C09_flowprops.v", "C09_constructor.v"]
 QUERIES = [-1e300, -1e6, -1.0, 0.0, 1e-300, 0.3, 0.999999, 1.0, 1.000001, 7.5, 1e6, 1e300, -math.inf, math.inf]
 
 
